@@ -5,6 +5,7 @@ import re
 from .common import MODEL, TYV, hexs, pipe, unhex
 
 R_NODE = re.compile(r"\( R (\d+) T:([0-9a-f]+) \)")
+R_KIND = re.compile(r"(?:\( |(?<= ))(\d+)(?=[: ])")
 
 
 def char_widths(srcs, timeout=3000):
@@ -45,6 +46,8 @@ def run_cases(cases, timeout=3000):
     res = []
     for case, parts, m in zip(cases, parsed, model):
         d = {"case": case}
+        # the syntax kinds of the tree that was compared (coverage of the converters by the correspondence)
+        d["kinds"] = sorted(set(int(x) for x in R_KIND.findall(parts[0]))) if parts and parts[0] else []
         if len(parts) >= 4:
             d["impl"] = "ok"
             d["impl_doc"], d["impl_out"], d["impl_cnt"] = parts[1], unhex(parts[2]), int(parts[3])
